@@ -460,6 +460,8 @@ def floordiv(a, b) -> R:
 def sym_round(x) -> R:
     """Round half to even (Python / numpy semantics) as an Int-valued term."""
     x = R.lift(x)
+    if x.special:
+        return x
     if x.is_const():
         return R.lift(round(x.const_value()))
     key = ('round', x.t.key())
